@@ -8,7 +8,7 @@ MANIFEST = dict(
    note="Trusted: Lean kernel; axioms propext/Classical.choice/Quot.sound only; the Go harness, hex line protocol and comparer; the go/ast translator (source text only). The model is a hand transcription validated on generated cases. Issue.msg stands for mapper(issue): the default formatter's text is taken from the library, custom mappers/formatters are computed by the harness. Paths are string keys and non-negative ints; other element types, negative ints and a nil *ZodError are outside the model. FormatError's reserved key \"_errors\" is an open known finding for the placement only (since cef00ff no message is lost; the placement cannot be repaired within the report shape).",
    design="DESIGN.md §5 C19; notes/C19.md")
 
-MODULES = ["Gozod.Proofs.C19", "Gozod.Proofs.C19Dot", "Gozod.Proofs.C19Exports"]
+MODULES = ["Gozod.Proofs.C19", "Gozod.Proofs.C19Dot", "Gozod.Proofs.C19Exports", "Gozod.Proofs.C19Go", "Gozod.Proofs.C19Parse"]
 GEN = os.path.join(C.LEAN, "Gozod", "Gen", "C19Exports.lean")
 THEOREMS = ["Gozod.C19." + t for t in [
     "c19_flatten_count", "c19_flatten_form", "c19_flatten_field", "c19_flatten_place",
@@ -23,6 +23,17 @@ THEOREMS = ["Gozod.C19." + t for t in [
     "c19_transcribed_present", "c19_error_method_as_expected", "c19_error_eq_prettify",
     "legacy_format_drops_union", "legacy_format_drops_element", "legacy_format_drops_unknown_code",
     "legacy_format_misfiles_nested", "legacy_dotpath_conflates", "legacy_nonempty_false",
+    "c19_wrapper_guards_as_expected",
+    # Go-level errors: every path element type, nil (Proofs/C19Go.lean)
+    "El.render_pos", "flattenGo_eq", "formatGo_eq", "treeifyGo_eq",
+    "c19_go_flatten_count", "c19_go_format_count", "c19_go_tree_count", "c19_go_tree_place", "c19_go_nonempty",
+    "c19_go_never_panics", "reportsCfg_fixed", "treeifyCfg_fixed", "treeifyCfg_head",
+    "treeInsertCur_eq_dropOther", "treeInsertCur_plain", "treeInsertCur_none_iff", "c19_cur_tree_partial",
+    "cur_tree_panics_negative", "cur_tree_misfiles_other", "c19_cur_tree_full_false", "cur_nil_panics",
+    # the dot notation as a grammar (Proofs/C19Parse.lean)
+    "unesc_esc", "parseSegs_seg", "c19_parse_dotpath_go", "c19_parse_dotpath", "c19_dotpath_go_injective",
+    "c19_dotpath_typed_injective", "c19_dotpath_esc_injective'", "cur_dotpath_other_conflates",
+    "dotPathCur_typed", "c19_cur_dotpath_partial", "c19_cur_dotpath_full_false",
 ]]
 
 PARTS = ("flat", "tree", "fmt", "pretty")
@@ -36,12 +47,15 @@ def parts(line):
     return d
 
 ERRKEY = "k" + "_errors".encode().hex()
+ERROTHER = "o" + "_errors".encode().hex()
 
 def features(op):
     """Classify the issue tree of an op line (token scan; enough to name the failure class)."""
     t = C.op_body(op).split(" ")
     f = set()
-    i = 2
+    if len(t) > 2 and t[2] == "nil":
+        return {"nil-error"}
+    i = 3
     # walk the token stream: I code npath segs... msg nb (n issues...)* ni issues*
     def issue(i, depth):
         assert t[i] == "I", (i, t[i])
@@ -58,7 +72,10 @@ def features(op):
         subs_at = i
         for _ in range(ni):
             i = issue(i, depth + 1)
-        if ERRKEY in segs: f.add("reserved-key")
+        if ERRKEY in segs or ERROTHER in segs: f.add("reserved-key")
+        if depth == 0:
+            if any(sg.startswith("j") for sg in segs): f.add("negative-int-element")
+            if any(sg.startswith("o") for sg in segs): f.add("other-type-element")
         if code.startswith("?"): f.add("unknown-code")
         if code == "invalid_union":
             f.add("union-with-branches" if any_nested else "union-without-branches")
@@ -74,7 +91,7 @@ def features(op):
             k = bytes.fromhex(segs[0][1:]).decode("utf-8", "replace")
             if k and (k[0].isdigit() or not re.fullmatch(r"[A-Za-z0-9_]*", k)): f.add("first-key-needs-brackets")
         return i
-    n = int(t[1])
+    n = int(t[2])
     for _ in range(n):
         i = issue(i, 0)
     return f
@@ -92,9 +109,14 @@ def key(op, impl, M, S):
     return key1(op, a, bad[0])
 
 def key1(op, a, p):
-    if a.get(p, "").startswith("panic"):
-        return p + ":panic"
     f = features(op)
+    if "nil-error" in f:
+        return "nil-error:panic" if a.get(p, "").startswith("panic") else "nil-error:" + p
+    if a.get(p, "").startswith("panic"):
+        if p == "tree" and "negative-int-element" in f: return "tree:panic:negative-int-element"
+        return p + ":panic"
+    if p == "tree" and "other-type-element" in f: return "tree:other-type-element"
+    if p == "pretty" and "other-type-element" in f: return "pretty:other-type-element"
     if p == "fmt":
         for cls in ("reserved-key", "unknown-code", "union-without-branches", "element-without-nested",
                     "element-with-nested", "union-with-branches"):
@@ -108,6 +130,8 @@ def key1(op, a, p):
 
 def describe(op):
     how = C.op_comment(op).strip()
+    if how.startswith("nil-error"):
+        return "var ze *gozod.ZodError (nil); gozod.FlattenError(ze), TreeifyError(ze), FormatError(ze), PrettifyError(ze)"
     if how.startswith("parse "):
         return "gozod." + how[6:] + " → err; gozod.FlattenError/TreeifyError/FormatError/PrettifyError(err)"
     return "%s: &gozod.ZodError{Issues: <the issue tree of the op line>} (synth-on-real-error: a copy of the error of String().Parse(1) with Issues replaced); then the four formatters" % how
